@@ -156,18 +156,24 @@ func c15(c *engine.Ctx) {
 		}
 		nskip++
 		flag := false
+		wantFlag := func(fn *engine.Fn, fc authdFact) bool {
+			se, isSel := ast.Unparen(fc.E).(*ast.SelectorExpr)
+			if !isSel || !fc.Neg || se.Sel.Name != "VerifyGenesisSignatures" {
+				return false
+			}
+			v, isVar := fn.Info().ObjectOf(se.Sel).(*types.Var)
+			return isVar && v.IsField()
+		}
 		for _, fc := range authdEnclosingFacts(loop.Body, br) {
-			if se, isSel := ast.Unparen(fc.E).(*ast.SelectorExpr); isSel && fc.Neg && se.Sel.Name == "VerifyGenesisSignatures" {
-				if v, isVar := info.ObjectOf(se.Sel).(*types.Var); isVar && v.IsField() {
-					flag = true
-				}
+			if authdFactImplied(f, fc, wantFlag, 2) {
+				flag = true
 			}
 		}
 		c.Check("skip-needs-flag", f.Name+" "+br.Tok.String()+"#"+authdItoa(nskip), br.Pos(), flag,
 			"a signature may be skipped only when the operator disabled genesis signature verification (!opts.VerifyGenesisSignatures)")
 		return true
 	})
-	c.Floor("skip-needs-flag", nskip, 2)
+	c.Floor("skip-needs-flag", nskip, 1)
 
 	// ---- (3) signdoc-flow ----
 	var sigAcc types.Object
@@ -258,11 +264,54 @@ func c15(c *engine.Ctx) {
 		}
 		recv := authdOperands(gs)[0]
 		var lit *ast.CompositeLit
-		engine.InspectBody(gs, func(n ast.Node) {
-			if cl, ok := n.(*ast.CompositeLit); ok && authdIsNamed(gi.TypeOf(cl), "tm2/pkg/std.SignDoc") {
-				lit = cl
+		litFn := gs                  // the function the literal lives in
+		var ctorCall *ast.CallExpr   // the call of the constructor in gs, when the literal moved there
+		isSD := func(fn *engine.Fn, n ast.Node) bool {
+			cl, ok := n.(*ast.CompositeLit)
+			return ok && authdIsNamed(fn.Info().TypeOf(cl), "tm2/pkg/std.SignDoc")
+		}
+		if ds := gs.DeepFind(2, isSD); len(ds) == 1 {
+			lit = ds[0].Inner.Node.(*ast.CompositeLit)
+			litFn = ds[0].Inner.Fn
+			if litFn != gs {
+				if len(ds[0].Chain) == 1 {
+					ctorCall = ds[0].Outer.Call
+				} else {
+					lit = nil // more than one helper level: not followed
+				}
 			}
-		})
+		}
+		// role: the object of gs (parameter or receiver) that e denotes
+		role := func(e ast.Expr) types.Object {
+			if litFn == gs {
+				return engine.ObjOf(gi, e)
+			}
+			if _, isID := ast.Unparen(e).(*ast.Ident); !isID {
+				return nil
+			}
+			o := engine.ObjOf(litFn.Info(), e)
+			if o == nil || ctorCall == nil || len(authdAssignsTo(litFn, o)) != 0 {
+				return nil
+			}
+			var args []ast.Expr
+			if se, ok := ast.Unparen(ctorCall.Fun).(*ast.SelectorExpr); ok {
+				if sel, ok := gi.Selections[se]; ok && sel.Kind() == types.MethodVal {
+					args = append(args, se.X)
+				}
+			}
+			args = append(args, ctorCall.Args...)
+			for i, q := range authdOperands(litFn) {
+				if q == o && i < len(args) {
+					return engine.ObjOf(gi, args[i])
+				}
+			}
+			return nil
+		}
+		want = map[string]func(ast.Expr) bool{
+			"ChainID":       func(e ast.Expr) bool { return role(e) == paramObj(gs, 0) && paramObj(gs, 0) != nil },
+			"AccountNumber": func(e ast.Expr) bool { return role(e) == paramObj(gs, 1) && paramObj(gs, 1) != nil },
+			"Sequence":      func(e ast.Expr) bool { return role(e) == paramObj(gs, 2) && paramObj(gs, 2) != nil },
+		}
 		sd := p.Named("tm2/pkg/std.SignDoc")
 		if lit == nil || sd == nil {
 			c.Undecided("signdoc-fields", gs.Name, "SignDoc literal not found")
@@ -283,7 +332,7 @@ func c15(c *engine.Ctx) {
 						ok, why = chk(v), "must be the corresponding parameter of GetSignBytes"
 					} else {
 						se, isSel := ast.Unparen(v).(*ast.SelectorExpr)
-						ok = isSel && se.Sel.Name == fn && engine.ObjOf(gi, se.X) == recv
+						ok = isSel && se.Sel.Name == fn && role(se.X) == recv && recv != nil
 						why = "must be the transaction's own " + fn
 					}
 				}
@@ -295,8 +344,11 @@ func c15(c *engine.Ctx) {
 		okRet := false
 		for _, rs := range authdReturns(gs) {
 			for _, r := range rs.Results {
-				if call, is := authdCalleeIs(gi, r, "tm2/pkg/std.GetSignaturePayload"); is && len(call.Args) == 1 && lit != nil && containsExpr(call.Args[0], lit) {
-					okRet = true
+				if call, is := authdCalleeIs(gi, r, "tm2/pkg/std.GetSignaturePayload"); is && len(call.Args) == 1 && lit != nil {
+					arg := authdResolveLocal(gs, call.Args[0])
+					if containsExpr(arg, lit) || (ctorCall != nil && ast.Unparen(arg) == ast.Expr(ctorCall)) {
+						okRet = true
+					}
 				}
 			}
 		}
@@ -1090,13 +1142,26 @@ func c15RunTx(c *engine.Ctx, p *engine.Prog) {
 		return strings.HasPrefix(n, "tm2/pkg/store") && engine.MatchName(n, writePats...)
 	}
 	nw := 0
-	for _, s := range f.Calls() {
-		if !isWrite(s) || s.Deferred {
+	isWriteNode := func(fn *engine.Fn, n ast.Node) bool {
+		call, ok := n.(*ast.CallExpr)
+		if !ok {
+			return false
+		}
+		st := fn.SiteOf(call)
+		return st != nil && isWrite(st)
+	}
+	for _, ds := range f.DeepFind(2, isWriteNode) {
+		s := ds.Outer // the write itself, or the call of the private helper that performs it
+		if s.Deferred {
 			continue
 		}
 		nw++
 		bad := g.ReachableAfter(s, abortRet) || !g.ReachableAfter(ante, s) && g.ReachableAfter(s, ante)
-		c.Check("abort-discards", f.Name+" "+authdShort(s.CalleeName())+"#"+authdItoa(nw)+" not before abort return", s.Pos(), !bad,
+		via := ""
+		if ds.Inner != ds.Outer {
+			via = " via " + authdShort(ds.Chain[0].Name)
+		}
+		c.Check("abort-discards", f.Name+" "+authdShort(ds.Inner.CalleeName())+via+"#"+authdItoa(nw)+" not before abort return", s.Pos(), !bad,
 			"a store write can execute before the ante handler's abort is honoured: a rejected transaction would leave state (e.g. the fee) behind")
 	}
 	// defers
@@ -1141,10 +1206,8 @@ func c15RunTx(c *engine.Ctx, p *engine.Prog) {
 		}
 		writes := false
 		for _, l := range append([]*engine.Fn{body}, body.AllLits()...) {
-			for _, s := range l.Calls() {
-				if isWrite(s) {
-					writes = true
-				}
+			if len(l.DeepFind(2, isWriteNode)) > 0 {
+				writes = true
 			}
 		}
 		st := f.SiteOf(ds)
@@ -1155,6 +1218,6 @@ func c15RunTx(c *engine.Ctx, p *engine.Prog) {
 		}
 		c.Check("abort-discards", key+" no write before abort", ds.Pos(), ok2, why)
 	})
-	c.Floor("abort-discards writes", nw, 3)
+	c.Floor("abort-discards writes", nw, 2)
 	c.Floor("abort-discards defers", nd, 3)
 }
